@@ -6,7 +6,7 @@ package main
 // monitor only (every accepted request: exactly one terminal result, Committed first, the value
 // the state machine returned); the compared observation is the constant "LIVE ok".
 //
-// case line: <id> LIVE seed=<n> nc=<0|1> clients=<k> ms=<run time before the stop> stop=<0 StopShard | 1 Close>
+// case line: <id> LIVE seed=<n> nc=<0|1> clients=<k> ms=<run time before the stop> stop=<0 StopShard | 1 Close | 2 StopShard, StartReplica again, later StopShard>
 
 import (
 	"context"
@@ -239,6 +239,33 @@ func runLive(line string, st *vh.Stats) string {
 		}(c)
 	}
 	time.Sleep(time.Duration(ms) * time.Millisecond)
+	if stop == 2 {
+		// in-process restart of the replica: the new incarnation replays the log (the state machine is
+		// in memory) while the same clients, with the same NoOP session, keep proposing
+		if err := nh.StopShard(shard); err != nil {
+			bad("StopShard: %v", err)
+		}
+		// the stopped replica is unloaded in the background; StartReplica is refused until that is done
+		restarted := false
+		for until := time.Now().Add(60 * time.Second); time.Now().Before(until); time.Sleep(time.Millisecond) {
+			err := nh.StartReplica(map[uint64]dragonboat.Target{1: "c12live:1"}, false,
+				func(uint64, uint64) sm.IStateMachine { return &liveSM{} }, rc)
+			if err == nil {
+				restarted = true
+				break
+			}
+			if !errors.Is(err, dragonboat.ErrShardAlreadyExist) {
+				bad("StartReplica after StopShard: %v", err)
+				break
+			}
+		}
+		if restarted {
+			st.Count("live.restarted")
+			time.Sleep(time.Duration(ms) * time.Millisecond)
+		} else {
+			stop = 1 // nothing to stop any more, close the host
+		}
+	}
 	if stop == 1 {
 		closeHost()
 	} else if err := nh.StopShard(shard); err != nil {
